@@ -785,3 +785,148 @@ def decode_guard_rule(A, cf, rule):
                                       'connect() / kills the read loop: no disconnect event, the '
                                       "client stays 'connected' forever")
         A.floor(rule, '%s %s response decodes' % (name, fn), n, 1)
+
+
+def status_gate_rule(A, cf, rule):
+    """A polling response is used only if its status is 2xx: on every path that goes on to
+    decode the body both bounds were tested (200 <= status and status < 300), and every
+    comparison of the status is one of those two bounds."""
+    name = cf['name']
+    accepted = {(('S', 1), -200), (('S', -1), 199), (('S', -1), 299), (('S', 1), -300)}
+    for fn in ('_connect_polling', '_read_loop_polling'):
+        fi, ps = cpaths(A, cf, fn, keep={'r'})
+        n = 0
+        for p in ps:
+            v = PV(p)
+            forms = []
+            for e in v.ev:
+                if e.kind == 'guard' and e.depth == 0 and e.cls != 'decided' and \
+                        re.search(r'\br\.status(_code)?\b', txt(e.expr)):
+                    f = int_ordering(unawait(e.expr), e.pol, {'r.status_code': ('S', 0),
+                                                               'r.status': ('S', 0)})
+                    forms.append((f, e))
+            for f, e in forms:
+                key = None if f is None else (tuple(sorted(f[0].items()))[0] if len(f[0]) == 1
+                                              else None, f[1])
+                A.check(key in accepted, rule + '.status-gate', '%s %s: the response status is '
+                        'compared with the 2xx bounds only' % (name, fn), A.site(fi, e.node),
+                        key='%s-%s-status-bound' % (name, fn), detail=txt(e.expr),
+                        behaviour='a 2xx reply is treated as a failure (the client drops a '
+                                  'healthy connection) or a redirect/error body is decoded')
+            dec = [i for i, e in enumerate(v.ev) if e.kind == 'call' and e.depth == 0 and
+                   'payload.Payload(encoded_payload=' in txt(e.expr)]
+            if dec:
+                n += 1
+                keys = {(tuple(sorted(f[0].items()))[0], f[1]) for f, e in forms
+                        if f is not None and len(f[0]) == 1}
+                A.check((('S', 1), -200) in keys and (('S', -1), 299) in keys,
+                        rule + '.status-gate', '%s %s: a body is decoded only after 200 <= '
+                        'status < 300 was established' % (name, fn), A.site(fi, v.node(dec[0])),
+                        key='%s-%s-status-gate' % (name, fn), detail=v.describe(40),
+                        behaviour='a redirect/error body is decoded as an Engine.IO payload')
+        A.floor(rule, '%s %s paths that decode a body' % (name, fn), n, 1)
+
+
+def loop_condition_rule(A, cf, rule):
+    """The client's loops run while (and only while) the client is connected."""
+    name = cf['name']
+    for fn in ('_read_loop_polling', '_read_loop_websocket', '_write_loop'):
+        fi = A.func(cf['cls'] + '.' + fn)
+        ws = [canon_while(n) for n in own_nodes(fi) if isinstance(n, ast.While)]
+        outer = [w for w in ws if "self.state" in ast.unparse(w.test)]
+        if not outer:
+            raise AnalysisError('%s: main loop of %s not found' % (rule, fi.qualname))
+        w = outer[0]
+        t = w.test
+        # the atoms that hold in every way the condition can be true (De Morgan aware)
+        from sa.paths import _dnf
+        alts = [{atom(x, pl) for x, pl in alt} for alt in _dnf(t, True)]
+        atoms = set.intersection(*alts) if alts else set()
+        A.check(("self.state == 'connected'", True) in atoms, rule + '.loop-condition',
+                "%s %s runs while the client is 'connected'" % (name, fn), A.site(fi, w),
+                key='%s-%s-loop-condition' % (name, fn), detail=ast.unparse(t),
+                behaviour='the loop never runs (nothing is read / written) or keeps running '
+                          'after a disconnect')
+
+
+def write_loop_sentinel_rule(A, cf, rule):
+    """The None sentinel ends the write loop: when it is the first item taken, nothing more
+    is taken from the queue and nothing is sent."""
+    name = cf['name']
+    fi, ps = cpaths(A, cf, '_write_loop', keep={'r', 'p', 'packets'}, loop_bound=1)
+    n = 0
+    for p in ps:
+        v = PV(p)
+        gi = [i for i, c, pl in guards_matching(v, 'packets == [None]', True)]
+        if not gi:
+            continue
+        n += 1
+        later = v.ev[gi[0] + 1:]
+        bad = [e for e in later if e.kind == 'call' and e.depth == 0 and (
+            re.search(r'self\.queue\.get(_nowait)?\(', txt(e.expr)) or
+            '_send_request(' in txt(e.expr) or re.search(r'self\.ws\.send', txt(e.expr)))]
+        A.check(not bad and any(e.kind == 'call' and 'self.queue.task_done()' in txt(e.expr)
+                                for e in later), rule + '.sentinel',
+                '%s _write_loop: the None sentinel is accounted for and ends the loop without '
+                'another read or send' % name, A.site(fi, v.node(gi[0])),
+                key='%s-write-loop-sentinel' % name,
+                detail=[txt(e.expr) for e in bad][:3] + v.describe(30),
+                behaviour='after a disconnect the write loop keeps draining/sending, or real '
+                          'packets are discarded as if they were the sentinel')
+    A.floor(rule, '%s _write_loop sentinel paths' % name, n, 1)
+
+
+def client_factory_rule(A, cf, rule):
+    """create_queue() returns the queue it built; connect() falls back to every valid transport
+    when none was asked for; _send_request reports a failure as text."""
+    name = cf['name']
+    cls = A.model.cls(cf['cls'])
+    cq = A.model.find_method(cls, 'create_queue')
+    for p in [p for p in A.paths(A.enum(follow_handlers=False), cq, cls) if p.outcome == 'return']:
+        c = unawait(p.value)
+        A.check(isinstance(c, ast.Call) and txt(c.func) in ('queue.Queue', 'asyncio.Queue'),
+                rule + '.fresh-queue', '%s create_queue() returns the queue it created' % name,
+                A.site(cq), key='%s-create-queue-return' % name, detail=txt(p.value),
+                behaviour='connect() fails (or reuses something that is not a queue)')
+    from .srvrules import transports_value_ok
+    fi = A.func(cf['cls'] + '.connect')
+    valid = ('valid_transports', "['polling', 'websocket']")
+    for label, val in (('None', Const(None)),
+                       ('one transport name', Kind('str', truthy=True, empty=False)),
+                       ('a list of names', Kind('list'))):
+        A.counters['cases'] += 1
+        asm = {'transports': val, 'self.state': Const('disconnected')}
+        ev = AbsEval(assume_from(asm))
+        ps = [p for p in A.paths(A.enum(assume=assume_from(asm), follow_handlers=False,
+                                        stop=lambda node, f: node.kind == 'return'),
+                                 fi, cls) if p.outcome != 'raise']
+        n = 0
+        for p in ps:
+            v = PV(p)
+            wr = [e.expr for e in v.ev if e.kind == 'write' and e.depth == 0 and
+                  txt(e.target) == 'self.transports']
+            if not wr:
+                continue
+            n += 1
+            A.check(transports_value_ok(wr[-1], ev, label, valid), rule + '.transports',
+                    '%s connect(transports=%s): the valid names among those asked for, or '
+                    'every valid one when none was asked for' % (name, label), A.site(fi),
+                    key='%s-connect-transports' % name, detail=[txt(x) for x in wr],
+                    behaviour='connect() without a transports argument fails or never '
+                              'upgrades; a bare string makes the membership tests substring '
+                              'tests')
+        A.floor(rule, '%s connect() paths storing the transports (%s)' % (name, label), n, 1)
+    sr = A.func(cf['cls'] + '._send_request')
+    for node in ast.walk(sr.node):
+        if isinstance(node, ast.ExceptHandler):
+            for r_ in [x for st in node.body for x in ast.walk(st) if isinstance(x, ast.Return)]:
+                v_ = r_.value
+                A.check(isinstance(v_, ast.Call) and isinstance(v_.func, ast.Name) and
+                        v_.func.id == 'str' or isinstance(v_, (ast.JoinedStr,)) or
+                        (isinstance(v_, ast.Constant) and isinstance(v_.value, str) and v_.value),
+                        rule + '.request-failures', '%s _send_request reports a failed request '
+                        'as a (non-empty) text' % name, A.site(sr, r_),
+                        key='%s-send-request-text' % name, detail=ast.unparse(r_),
+                        behaviour='a failed request comes back as None and is taken for ... '
+                                  'whatever the caller does with None: AttributeError in the '
+                                  'loop, no disconnect event')
